@@ -38,16 +38,19 @@ import (
 func init() {
 	kit.Register(&kit.Spec{
 		ID:     "C12",
-		Rule:   "per shard one live regnet/instant-block node (odd shards: VoteStartHeight lowered so DPoS/CR checkpoint rollbacks run inside every reorg); per case one generated block tree: 5-60 blocks, 1-4 branches rooted 0-10 blocks below the tip or on other tree blocks, branch heights chosen relative to the best height (tie / heavier / lighter), 25-45% of branches carry ONE context-invalid block at position k (double spend of an output spent earlier on that branch, coinbase over/under-claim, immature coinbase spend), valid blocks carry 0-2 signed transfers (same outputs are spent differently on rival branches); delivery order per tree: construction / by height / shuffled / reversed / windowed shuffle / parents-last, plus ~10% duplicate deliveries; then 1-2 honest blocks with transfers mined on the tip. distinct = distinct (tree shape, fault placement, delivery order); non-trivial = the tree caused at least one reorganisation, orphan connection or invalid-branch switch attempt on the node",
+		Rule:   "per shard one live regnet/instant-block node (odd shards: VoteStartHeight lowered so DPoS/CR checkpoint rollbacks run inside every reorg); per case one generated block tree: 5-60 blocks, 1-4 branches rooted 0-10 blocks below the tip or on other tree blocks, branch heights chosen relative to the best height (tie / heavier / lighter), 25-45% of branches carry ONE context-invalid block at position k (double spend of an output spent earlier on that branch, coinbase over/under-claim, immature coinbase spend), valid blocks carry 0-2 signed transfers (same outputs are spent differently on rival branches); delivery order per tree: construction / by height / shuffled / reversed / windowed shuffle / parents-last, plus ~10% duplicate deliveries; then 1-2 honest blocks with transfers mined on the tip; in addition per shard 2 (quick) / 6 (thorough) era-boundary sub-runs on nodes of their own with CRCOnlyDPOSHeight lowered to B in 18..30: strictly heavier valid branches (sometimes after an equal-work rival) forking 1..12 blocks below the tip while the tip is at B-1, at B and at B+1 (depth <= 6 there), depths scheduled so that every run has forks deeper than 6 at B-1 and at B, plus an unjudged >6-deep control above B. distinct = distinct (tree shape, fault placement, delivery order); non-trivial = the tree caused at least one reorganisation, orphan connection or invalid-branch switch attempt on the node",
 		Shards: func(tier string) int { return 8 },
 		Run:    runC12,
 		Require: []string{"trees", "deliveries", "duplicate_deliveries", "orphans_delivered", "orphans_connected", "reorgs",
 			"invalid_branch_attempts", "tie_states", "fault_blocks_built", "honest_extensions_accepted",
-			"utxo_view_compares", "ledger_replays", "twin_paths_checked", "twin_valid_paths_confirmed", "twin_fault_paths_confirmed"},
+			"utxo_view_compares", "ledger_replays", "twin_paths_checked", "twin_valid_paths_confirmed", "twin_fault_paths_confirmed",
+			"boundary_runs", "deep_fork_with_tip_at_crconly_height", "deep_fork_with_tip_at_crconly_height_minus_1",
+			"shallow_fork_with_tip_at_crconly_height", "deep_fork_depth_over_6_pow_era_adopted",
+			"shallow_fork_adopted_with_tip_at_crconly_height_plus_1", "control_deep_fork_above_crconly_height"},
 		Assumptions: []string{
 			"pow era of regnet with instant-block difficulty (constant Bits: work is proportional to length); CheckRewardHeight=0 so coinbase amount errors are not discarded",
 			"validity of generated blocks is known by construction and cross-checked by linear replay on fresh twin nodes (sub-processes) for sampled trees and for every reported witness",
-			"no block crosses the DPoS irreversibility guard (heights stay below CRCOnlyDPOSHeight)",
+			"random trees stay below CRCOnlyDPOSHeight; the era-boundary sub-runs judge only tips <= CRCOnlyDPOSHeight (nothing is irreversible, any depth) and tips above it with fork depth <= 6 (the depth guard does not apply, LastIrreversibleHeight is 0); deeper forks above the boundary are C30's and only counted",
 		},
 		TimeoutS: func(tier string) int {
 			if tier == "thorough" {
@@ -65,8 +68,9 @@ type c12H struct {
 	nd        *node.Node
 	r         *rand.Rand
 	m         *c12Model
-	maturity  uint32
-	voteStart uint32
+	cfg       c12Cfg
+	maturity  uint32 // == cfg.Maturity
+	sigTag    string // appended to tip-not-max-work in era-boundary sub-runs
 	minRoot   uint32
 	maxBlocks int
 	tipBlk    *c12Blk
@@ -85,21 +89,27 @@ func runC12(c *kit.Ctx) {
 		runC12Twin(c, job)
 		return
 	}
-	h := &c12H{c: c, r: c.Rand("c12"), m: newC12Model(), maturity: 3, maxBlocks: c.N(40, 60)}
+	if job := os.Getenv("VERIF_C12_BOUNDARY"); job != "" {
+		runC12Boundary(c, job)
+		return
+	}
+	h := &c12H{c: c, r: c.Rand("c12"), m: newC12Model(), maturity: 3, cfg: c12Cfg{Maturity: 3}, maxBlocks: c.N(40, 60)}
 	if c.Shard%2 == 1 {
-		h.voteStart = 6
+		h.cfg.VoteStart = 6
 		c.Inc("shards_with_checkpoint_rollbacks")
 	}
-	nd, err := node.Start(c12Options(c.WorkDir, h.maturity, h.voteStart))
+	nd, err := node.Start(c12Options(c.WorkDir, h.cfg))
 	if err != nil {
 		c.Inconclusive("node start: %v", err)
 		return
 	}
 	defer nd.Close()
 	h.nd = nd
-	if !h.bootstrap() {
+	if !h.bootstrap(12) {
 		return
 	}
+	// era-boundary fork scenarios on nodes of their own (sub-processes)
+	h.boundaryRuns()
 	n := c.N(10, 250)
 	for i := 0; i < n && !h.stuck; i++ {
 		h.runTree(i)
@@ -108,7 +118,7 @@ func runC12(c *kit.Ctx) {
 
 // bootstrap matures the genesis output, splits it over accounts 2..5 and
 // imports the node's chain into the model.
-func (h *c12H) bootstrap() bool {
+func (h *c12H) bootstrap(extra int) bool {
 	c, nd := h.c, h.nd
 	if err := nd.MineN(int(h.maturity) + 1); err != nil {
 		c.Inconclusive("mining: %v", err)
@@ -129,7 +139,7 @@ func (h *c12H) bootstrap() bool {
 		return false
 	}
 	h.minRoot = nd.Height()
-	if err := nd.MineN(12); err != nil {
+	if err := nd.MineN(extra); err != nil {
 		c.Inconclusive("mining: %v", err)
 		return false
 	}
@@ -509,7 +519,7 @@ func (h *c12H) treeID(tree []*c12Blk, order []int) string {
 
 func (h *c12H) witness(extra map[string]interface{}) map[string]interface{} {
 	w := map[string]interface{}{"tree": h.treeNo, "blocks": h.describe(h.treeBlocks), "delivered_so_far": h.order,
-		"config": fmt.Sprintf("maturity=%d voteStart=%d", h.maturity, h.voteStart)}
+		"config": h.cfg.String()}
 	var nv []string
 	for _, b := range h.treeBlocks {
 		st := "unknown"
@@ -712,7 +722,7 @@ func c12ErrStr(e error) string {
 func (h *c12H) twinConfirm(leaf *c12Blk) (ok bool, summary string) {
 	path := leaf.pathFromGenesis()
 	h.twinSeq++
-	out, err := c12Twin(h.c, h.twinSeq, h.maturity, h.voteStart, path)
+	out, err := c12Twin(h.c, h.twinSeq, h.cfg, path)
 	if err != nil {
 		h.c.Inc("twin_unavailable")
 		return true, "twin unavailable: " + err.Error()
@@ -816,8 +826,12 @@ func (h *c12H) classifyNotMax(t, prev, cur, attempted *c12Blk, perr error) {
 	if reasons > 0 {
 		return
 	}
-	if ok, tw := h.crossCheck("tip-not-max-work", best); ok {
-		c.Violate("tip-not-max-work", fmt.Sprintf("after delivering #%d the tip is #%d at height %d, but the fully delivered valid chain ending in #%d has height %d (strictly more work)",
+	sig := "tip-not-max-work"
+	if h.sigTag != "" {
+		sig += ":" + h.sigTag
+	}
+	if ok, tw := h.crossCheck(sig, best); ok {
+		c.Violate(sig, fmt.Sprintf("after delivering #%d the tip is #%d at height %d, but the fully delivered valid chain ending in #%d has height %d (strictly more work)",
 			t.id, cur.id, cur.height, best.id, best.height), h.witness(map[string]interface{}{"process_error": c12ErrStr(perr), "twin": tw}))
 	} else {
 		h.stuck = true
